@@ -48,12 +48,12 @@ structure SkipState where
 def SkipState.init (hasExo : Bool) : SkipState :=
   { pred := false, state := false, exo := if hasExo then some false else none, corr := false }
 
-/-- `DrawParticles(std::unique_ptr<StateModel>, std::unique_ptr<ExogenousModel>)`: the second
-    argument is moved into the member `exogenous_model_`, which nothing reads; it is *not*
-    attached to the state model (`add_exogenous_model` is never called).  The configuration the
-    skip machinery (and `LinearStateModel::propagate`) sees therefore has no exogenous model,
-    whatever the caller supplied. -/
-def drawTwoArgConfig (_suppliedExo : Bool) : SkipState := SkipState.init false
+/-- `DrawParticles(std::unique_ptr<StateModel>, std::unique_ptr<ExogenousModel>)`: since fix
+    18ea290 the constructor body calls `state_model_->add_exogenous_model(std::move(exogenous_model))`,
+    so the configuration the skip machinery (and `LinearStateModel::propagate`) sees has an
+    exogenous model exactly when the caller supplied one.  (Before the fix the model was moved
+    into a member nothing reads and this was `SkipState.init false`.) -/
+def drawTwoArgConfig (suppliedExo : Bool) : SkipState := SkipState.init suppliedExo
 
 /-- What the caller of `skip` sees. -/
 inductive Outcome
